@@ -325,7 +325,7 @@ def run(ctx):
     ctx.assumptions = ["a pre-built object instance handed to a store is passed through untouched (documented); only parse/construct routes are asserted",
                        "'refused' = any exception from the strict call; which exception class is C17's concern"]
     types = [(v, t) for v in ("2.0", "2.1") for t in G.top_types(v)]
-    per_type = max(1, ctx.n(300, 1200) // len(types))
+    per_type = max(1, ctx.n(220, 1200) // len(types))
 
     def body(args):
         ver, doc, seed_i = args
@@ -359,6 +359,13 @@ def run(ctx):
                 case = {"unregistered": True, "ext_key": ext_key, "ext_type": ext_type, "entry": entry}
                 ctx.note(case, True, ["unregistered-type", "entry:" + entry], fp=core.fingerprint([ext_key, ext_type, entry]))
                 ctx.handle(case, check_unregistered(case))
+                for second in ("extension-definition", "extension-definition-nondict", "custom-claiming-new"):
+                    if second == "custom-claiming-new" and ext_type in ("new-sdo", "new-sco", "new-sro") and ext_key.startswith("extension-definition--"):
+                        continue
+                    for second_first in (False, True):
+                        case = {"unregistered": True, "ext_key": ext_key, "ext_type": ext_type, "entry": entry, "second": second, "second_first": second_first}
+                        ctx.note(case, True, ["unregistered-type:two-extensions", "entry:" + entry], fp=core.fingerprint([ext_key, ext_type, entry, second, second_first]))
+                        ctx.handle(case, check_unregistered(case))
     ctx.collect_only = False
 
     for ver_t in types:
@@ -385,6 +392,15 @@ def check_unregistered(case):
     if case["ext_type"] is not None:
         body["extension_type"] = case["ext_type"]
     doc["extensions"] = {case["ext_key"]: body}
+    if case.get("second"):
+        # a second, unrelated extension: the new-object declaration and the extension-definition key must belong to ONE entry
+        other = {"extension-definition": ("extension-definition--7e4ba2c2-6b3e-4a0f-9a6e-0e2f5f5d0a11", {"extension_type": "property-extension", "p": 1}),
+                 "extension-definition-nondict": ("extension-definition--7e4ba2c2-6b3e-4a0f-9a6e-0e2f5f5d0a11", 5),
+                 "custom-claiming-new": ("x-claims-ext", {"extension_type": "new-sdo"})}[case["second"]]
+        items = [(case["ext_key"], body), other]
+        if case.get("second_first"):
+            items.reverse()
+        doc["extensions"] = dict(items)
     entry = case["entry"]
     if entry == "parse":
         res, exc = core.guarded(stix2.parse, doc, allow_custom=False)
